@@ -94,6 +94,16 @@ def part_a(ctx):
         if not same:
             ctx.violation({'kind': 'bytes', 'signature': 'codec/remaining-length', 'detail': str(v), 'history': [['len', v]], 'scenario': {'name': 'enum'}})
             break
+    for v in (0, 1, 127, 128, 129, 16383, 16384, 16385, 2097151, 2097152, 2097153, 268435454, 268435455):
+        n += 1
+        try:
+            same = pdu.decodeLength(bytearray(rc.enc_len(v))) == v and pdu.decodeLength(bytearray(rc.enc_len(v)) + bytearray(b'\x7f\xff')) == v
+        except Exception:      # noqa
+            same = False
+        if not same:
+            ctx.violation({'kind': 'bytes', 'signature': 'codec/remaining-length-decode', 'detail': 'decodeLength(reference encoding of %d)' % v,
+                           'history': [['len', v]], 'scenario': {'name': 'enum'}})
+            break
     return n + m
 
 
